@@ -5,12 +5,23 @@ import re
 
 m = json.load(open("seeded/MATRIX.json"))
 NOTES = {
+    "C01-E": "round 5; first missed (needs a second save of the same open document): two-save histories in the stand-in + structural obligation (keys of lists emptied on save are not memoised)",
+    "C02-E": "round 5; first missed (left the subset; the contract's native search saved plain rows only): the search now calls recalculate_row_info on rows with record-less cells; create-formulas.numbers always in the quick tier",
+    "C07-E": "round 5; caught by the stand-in; now also replayed through recalculate_row_info's native search (offsets of rows with merged placeholders)",
+    "C13-E": "round 5; first missed (no exact power of the base in the stand-in or the native search): both have them now",
+    "C15-E": "round 5; first missed (needs a style change after a first save): such histories in the stand-in, update_paragraph_style under contract",
+    "C16-E": "round 5; first missed (only tables whose rows/columns are all headers): generator draws counts up to the table size + frame obligation on the stored header counts",
+    "C20-E": "round 5; first missed: first-cell U+FEFF variants",
+    "C09-E": "round 5; caught by the stand-in; later _format_row_span/_format_column_span were brought under contract (prefix dropped iff a label is document-unique)",
+    "C13-D": "round 4; caught by the stand-in; later a sampled ground check of _twos_complement, which also exposed a genuine defect (fix c6f6cac; patch rebased)",
+    "C15-D": "round 4; caught by the stand-in; later Table.set_cell_border was brought under contract (every cell along the stroke is updated)",
+    "C16-D": "round 4; caught by the stand-in; later a structural obligation (the border allowance loads the stored strokes)",
+    "C20-D": "round 4; first missed: 20-45 digit integers added to the number pool; later a structural obligation (a coerced field is the result of float())",
     "C03-D": "round 4; first missed (no history grew past one 256-row tile; C03 did not look at the tile writer): C03 re-verifies C07's tile-loop contracts, stand-in grows tables past 256 rows",
     "C06-D": "round 4; first missed: row_storage_map brought under contract (one store per record, at its flat position) and an empty-row-records layout variant added",
     "C08-D": "round 4; first missed (no literal needed 16-17 digits): number_to_str contract for the no-exponent case + such literals in the stand-in",
     "C09-D": "round 4; first missed (one header row at most): tables with 2 header rows/columns, resolver label rule corrected, _column_data/_row_data under contract",
     "C12-D": "round 4; first missed (needs a document authored in Numbers that already holds merges): calculate_merge_cell_ranges under contract, fixtures with merges in the stand-in",
-    "C20-D": "round 4; first missed: 20-45 digit integers added to the number pool",
     "C05-D": "round 4; first caught by the deductive side only: header lengths around the varint boundaries in the stand-in, native search for to_buffer",
     "C11-A": "first missed (regex flags ignored by the encoder); engine corrected, now caught",
     "C15-A": "first missed; stand-in strengthened with near-duplicate style pairs; later also a complete syntactic obligation on the style key",
